@@ -323,6 +323,14 @@ def main(mod, argv):
     with open(os.path.join(evdir, pid + '.json'), 'w') as f:
         json.dump(ev, f, indent=1, sort_keys=True)
         f.write('\n')
+    if not os.environ.get('YPV_EVIDENCE_DIR'):
+        # evidence/<id>.json holds the LAST run; a copy per tier is kept next to it so that the quick and the
+        # thorough run of the same tree can both be read
+        tdir = os.path.join(VERIF, 'evidence_by_tier', tier)
+        os.makedirs(tdir, exist_ok=True)
+        with open(os.path.join(tdir, pid + '.json'), 'w') as f:
+            json.dump(ev, f, indent=1, sort_keys=True)
+            f.write('\n')
     print('%s %s seed=%d: %d evaluations, %d distinct non-trivial, %.1fs, counters=%s discarded=%s' % (
         pid, tier, seed, total.evaluations, len(total.keys), wall,
         json.dumps(cov['counters']), json.dumps(total.discards)))
